@@ -376,6 +376,30 @@ impl Oracle<'_, '_> {
         }
         let m = self.model.clone();
         let ms = m.print();
+        // byte-level checks (C02's subject): run first in the C02 run so its violations carry the byte classes
+        let bytes_check = |this: &Self, obs: &Obs| -> Option<(&'static str, String)> {
+            match serialize::<T>(&this.model) {
+                Ok((canon, written)) => {
+                    if obs.len != canon.len() || written != canon.len() {
+                        return Some(("len_mismatch", format!("data_len={} byte_size(model)={} from_owned wrote {written}", obs.len, canon.len())));
+                    }
+                    if obs.bytes != canon {
+                        return Some(("bytes_noncanonical", format!("bytes={} canonical={}", hex(&obs.bytes), hex(&canon))));
+                    }
+                    let g = this.model.encode(&this.shape);
+                    if g != canon {
+                        return Some(("from_owned_vs_grammar", format!("from_owned={} grammar={}", hex(&canon), hex(&g))));
+                    }
+                    None
+                }
+                Err(e) => Some(("from_owned_failed", e)),
+            }
+        };
+        if self.cx.prop == Prop::C02 {
+            if let Some((c, d)) = bytes_check(self, obs) {
+                return self.fail(c, d);
+            }
+        }
         if obs.owned.as_ref() != Ok(&m) {
             return self.fail("owned_mismatch", format!("owned()={} model={ms}", vstr(&obs.owned)));
         }
@@ -400,20 +424,10 @@ impl Oracle<'_, '_> {
                 );
             }
         }
-        match serialize::<T>(&m) {
-            Ok((canon, written)) => {
-                if obs.len != canon.len() || written != canon.len() {
-                    return self.fail("len_mismatch", format!("data_len={} byte_size(model)={} from_owned wrote {written}", obs.len, canon.len()));
-                }
-                if obs.bytes != canon {
-                    return self.fail("bytes_noncanonical", format!("bytes={} canonical={}", hex(&obs.bytes), hex(&canon)));
-                }
-                let g = m.encode(&self.shape);
-                if g != canon {
-                    return self.fail("from_owned_vs_grammar", format!("from_owned={} grammar={}", hex(&canon), hex(&g)));
-                }
+        if self.cx.prop != Prop::C02 {
+            if let Some((c, d)) = bytes_check(self, obs) {
+                return self.fail(c, d);
             }
-            Err(e) => return self.fail("from_owned_failed", e),
         }
         if let Ok(sv) = &obs.shared {
             if !sorted_ok(&self.shape, sv) {
